@@ -8,6 +8,10 @@ NA={
  "C18":"Static well-formedness of emitted text, a pure function of the machine configuration; no schedule, clock or fault involved (DESIGN.md §4).",
 }
 CLAIMS={
+ "C07":("exploration",
+  "Each build tool (basm, basm+HDL generation, neuralbond, bmqsim->basm) is executed in-process under a canonical schedule and under seeded perturbations of every map iteration order and goroutine choice; artefact bytes and accept/reject decisions must be identical, mismatches are attributed to single map ranges. bondgo is covered by the same oracle in C12. Sampling, not proof.",
+  "Trusted: simgen's census that every map range / goroutine / rand / time use of the instrumented packages is behind a seam (anything un-rewritable aborts the build); per-process inputs outside those seams (environment, file system layout) are fixed by the harness.",
+  "deterministic simulation: tape-driven map-order and goroutine-schedule perturbation, canonical-vs-perturbed byte equality, single-site attribution","DESIGN.md §3 C07"),
  "C12":("exploration",
   "Seeded search over goroutine schedules and map iteration orders of the real cmd/bondgo main inside a synctest bubble: exact deadlock/leak detection, schedule-independence of the emitted assembly and machine JSON, and output equivalence with direct evaluation for the simulable subset. Sampling, not proof.",
   "Trusted: testing/synctest quiescence detection, simgen's source rewrite (scheduling points at channel ops, map ranges through simrt.MapIter), the goprog reference evaluator. Pre-emption only at channel operations/goroutine start/exit.",
